@@ -35,6 +35,7 @@ structure RS where
   implCtx : List (String × String) := []   -- reversed: (dl=…, ek=…) per call
   implRet : Option (Nat × String × Bool × Bool) := none
   bad : Option String := none
+  props : List String := []   -- verdicts of the requests of this case that are already complete
 
 def parseCfg (t : List String) : Option Cfg := do
   let en ← kvBool t "en"
@@ -79,10 +80,38 @@ def callLine (c : Cfg) (e : Env) (script : List Attempt) (tag : String) (t : Nat
     else if pusherErrCanceled c e t then "c" else "d"
   s!"{tag} call {t} {showIds ids} dl={dl} ek={ek}"
 
+def finalizeReq (s : RS) : List String :=
+    if !s.sent then [] else
+    match s.bad, s.cfg, s.env, s.implRet with
+    | some b, _, _, _ => [s!"prop retry=FAIL sig=C05/retry/unparsable {b}"]
+    | none, some c, some e, some (t, reason, p, sd) =>
+      let script := s.script.reverse
+      let calls := s.implCalls.reverse
+      let o : Observed := { calls := calls, tEnd := t, isNil := reason == "ok", permFlag := p, sdFlag := sd }
+      let p1 := match checkObserved c e s.payload script o with
+        | [] => "prop retry=ok"
+        | sig :: more => s!"prop retry=FAIL sig={sig} also={more} calls={o.calls.map (·.1)} ret={t}/{reason}"
+      -- monitor: the observation is the observation of a trace some scheduling order produces
+      let p2 := match reasonOfString reason with
+        | some r =>
+          if accepts c e r t p sd 0 0 s.payload script calls then "prop allowed=ok"
+          else s!"prop allowed=FAIL sig=C05/retry/not-an-allowed-behaviour calls={o.calls.map (·.1)} ret={t}/{reason}"
+        | none => s!"prop allowed=FAIL sig=C05/retry/unknown-return-reason {reason}"
+      -- what the pusher saw of the timeout sender and the request deadline
+      let ctxLines := (calls.zip s.implCtx.reverse).zipIdx.filterMap (fun (((ct, _), (dl, ek)), k) =>
+        let want := ((callLine c e script "obs" ct [] k).splitOn " ").drop 4
+        if want == [dl, ek] || ek == "ek=?" && want.take 1 == [dl] then none else some s!"call{k}:{dl},{ek}≠{want}")
+      let p3 := if ctxLines.isEmpty then "prop pusherctx=ok" else s!"prop pusherctx=FAIL sig=C05/timeout/pusher-context-mismatch {ctxLines}"
+      [p1, p2, p3]
+    | none, _, _, _ => ["prop retry=FAIL sig=C05/retry/no-return-observed"]
+
 def retryHandler : Handler RS where
   init := {}
   onOp := fun s toks =>
     match toks with
+    | "req" :: _ =>
+      -- a further request of the same case (several requests through one retry sender): judge the previous one, start afresh
+      ({ props := s.props ++ finalizeReq s }, [])
     | "cfg" :: rest =>
       match parseCfg rest with
       | some c => ({ s with cfg := some c }, [])
@@ -118,30 +147,7 @@ def retryHandler : Handler RS where
       | some t, some p, some sd => { s with implRet := some (t, reason, p, sd) }
       | _, _, _ => { s with bad := some "unparsable ret" }
     | _ => s
-  onEnd := fun s =>
-    if !s.sent then [] else
-    match s.bad, s.cfg, s.env, s.implRet with
-    | some b, _, _, _ => [s!"prop retry=FAIL sig=C05/retry/unparsable {b}"]
-    | none, some c, some e, some (t, reason, p, sd) =>
-      let script := s.script.reverse
-      let calls := s.implCalls.reverse
-      let o : Observed := { calls := calls, tEnd := t, isNil := reason == "ok", permFlag := p, sdFlag := sd }
-      let p1 := match checkObserved c e s.payload script o with
-        | [] => "prop retry=ok"
-        | sig :: more => s!"prop retry=FAIL sig={sig} also={more} calls={o.calls.map (·.1)} ret={t}/{reason}"
-      -- monitor: the observation is the observation of a trace some scheduling order produces
-      let p2 := match reasonOfString reason with
-        | some r =>
-          if accepts c e r t p sd 0 0 s.payload script calls then "prop allowed=ok"
-          else s!"prop allowed=FAIL sig=C05/retry/not-an-allowed-behaviour calls={o.calls.map (·.1)} ret={t}/{reason}"
-        | none => s!"prop allowed=FAIL sig=C05/retry/unknown-return-reason {reason}"
-      -- what the pusher saw of the timeout sender and the request deadline
-      let ctxLines := (calls.zip s.implCtx.reverse).zipIdx.filterMap (fun (((ct, _), (dl, ek)), k) =>
-        let want := ((callLine c e script "obs" ct [] k).splitOn " ").drop 4
-        if want == [dl, ek] || ek == "ek=?" && want.take 1 == [dl] then none else some s!"call{k}:{dl},{ek}≠{want}")
-      let p3 := if ctxLines.isEmpty then "prop pusherctx=ok" else s!"prop pusherctx=FAIL sig=C05/timeout/pusher-context-mismatch {ctxLines}"
-      [p1, p2, p3]
-    | none, _, _, _ => ["prop retry=FAIL sig=C05/retry/no-return-observed"]
+  onEnd := fun s => s.props ++ finalizeReq s
 
 /-! ### error trees: prefix encoding `L | W x | P x | T<d> x | D<ids> x | O x | S x | J<n> x1 … xn` -/
 
